@@ -122,6 +122,13 @@ def enc_val(v) -> str:
     return "?:" + repr(v)
 
 
+def safe_repr(d) -> str:
+    try:
+        return repr(dict(d))
+    except ValueError:          # repr of an int beyond the digit limit
+        return "{" + ", ".join(f"{k!r}: <{type(v).__name__}>" for k, v in d.items()) + "}"
+
+
 def mk_key(kd):
     from bs4.element import NamespacedAttribute
     if kd[0] == "p":
@@ -494,6 +501,7 @@ def execute(case):
                 d[mk_key(kd)] = mk(vd)
         except ValueError:
             return "valueError", extra
+        case["_human"] = (type(d).__name__, d)
         return "ok " + enc_items(d), extra
     if kind == "parse":
         cfg = case["cfg"]
@@ -507,6 +515,7 @@ def execute(case):
         case["_seen"] = seen
         if tag is None:
             return "no-tag", extra
+        case["_human"] = (type(tag.attrs).__name__, tag.attrs)
         for k, v in tag.attrs.items():
             gl = tag.get_attribute_list(k)
             want = v if isinstance(v, list) else [v]
@@ -545,6 +554,7 @@ def execute(case):
         bad = default_decode_check(tag)
         if bad:
             extra.append(("default decode joins with single spaces", bad[0], bad[1]))
+        case["_human"] = (type(tag.attrs).__name__, tag.attrs)
         return show_tag(tag), extra
     raise ValueError(kind)
 
@@ -762,11 +772,15 @@ def check_cases(ctx: Ctx, stream: str, cases: list):
     """real vs oracle vs model for a batch of cases"""
     obs, exts = [], []
     for c in cases:
-        o, e = execute(c)
+        try:
+            o, e = execute(c)
+        except Exception as ex:      # an exception the property does not provide for is an observation, not a harness error
+            o, e = f"raised {type(ex).__name__}: {str(ex)[:80]}", []
         obs.append(o)
         exts.append(e)
     # the model starts from what the tokenizer delivered
     for c in cases:
+        c.pop("_human", None)
         if c["kind"] == "parse":
             seen = c.pop("_seen", None)
             if seen is not None:
@@ -818,7 +832,7 @@ def run(ctx: Ctx):
         ctx.count("split:sep-is-ws" if c["s"][1].isspace() else "split:sep-not-ws")
     check_cases(ctx, "split-exhaustive", cases)
     r = ctx.rng("split")
-    cases = [{"kind": "split", "s": gen_ws_string(r)} for _ in range(ctx.n(4000, 40000))]
+    cases = [{"kind": "split", "s": gen_ws_string(r)} for _ in range(ctx.n(20000, 100000))]
     cases += [{"kind": "split", "s": s} for s in ["", " ", "\t\n", "a", " a", "a ", "a  b", " ", "a b", "a​b", "\x1c\x1d\x1e\x1f", "a\x85b"]]
     for c in cases:
         ctx.count(f"split:tokens={min(len(c['s'].split()), 4)}")
@@ -866,13 +880,34 @@ def run(ctx: Ctx):
                                                                      [["p", "z"], ["s", "2"]], [list(kd), list(vd)]]})
     ctx.exhaustive_parts.append(f"dict: every key form x every grid value x 3 container classes, on an empty and on a populated dictionary ({len(cases)} cases)")
     r = ctx.rng("dict")
-    for _ in range(ctx.n(1500, 15000)):
+    for _ in range(ctx.n(8000, 40000)):
         cases.append({"kind": "dict", "cls": r.choice(["html", "xml", "plain"]),
                       "sets": [[list(r.choice(KEYS)), pick_value(r)] for _ in range(r.randint(2, 5))]})
     for c in cases:
         for _, vd in c["sets"]:
             ctx.count("dict:value:" + vd[0])
     check_cases(ctx, "dict-grid", cases)
+    # documentation of the defect: when the tree under test still has the membership test `value in (False, None)`,
+    # the Lean mirror of the unrepaired code (htmlSetOld, theorem old_membership_test_drops_zero) must describe it exactly
+    dc, _ = _classes()
+    probe = dc["html"]()
+    probe["k"] = 0
+    if "k" not in probe:
+        hc = [c for c in cases if c["cls"] == "html"]
+        lines = [model_line(c).replace("c17 dict html", "c17 dictold", 1) for c in hc]
+        reps = Driver().ask(lines)
+        agree = 0
+        for c, rep in zip(hc, reps):
+            try:
+                o, _e = execute(c)
+            except Exception as ex:
+                o = f"raised {type(ex).__name__}"
+            c.pop("_human", None)
+            agree += (o == rep)
+        ctx.notes.append(f"unrepaired HTMLAttributeDict detected (0 is dropped): the Lean mirror of the unrepaired test (htmlSetOld) "
+                         f"agrees with the implementation on {agree}/{len(hc)} HTML container histories")
+        ctx.count("dict:old-mirror-agrees", agree)
+        ctx.count("dict:old-mirror-cases", len(hc))
 
     # ---- 4. Tag.__init__ / Tag.__setitem__ / new_tag / copy ---------------------------------------------------------
     cases = []
@@ -892,7 +927,7 @@ def run(ctx: Ctx):
                               "acls": acls, "sets": [[["p", "class"], list(vd)]]})
     ctx.exhaustive_parts.append(f"tag: every grid value through builder-less Tag (html/xml), copy, new_tag under 4 dict classes x default/None ({len(cases)} cases)")
     r = ctx.rng("tag")
-    cases += [gen_tag_case(r) for _ in range(ctx.n(2500, 25000))]
+    cases += [gen_tag_case(r) for _ in range(ctx.n(12000, 60000))]
     for c in cases:
         ctx.count("tag:" + ("builder" if c["cfg"] is not None else c.get("via", "builderless")))
     check_cases(ctx, "tag-grid", cases)
@@ -917,7 +952,7 @@ def run(ctx: Ctx):
                     cases.append({"kind": "parse", "cfg": cfg, "name": "a", "attrs": al, "markup": markup_for("a", al)})
     ctx.exhaustive_parts.append(f"parse: every live table entry x every whitespace code point x default/None; 2-4 repeats x {len(ONDUP)} duplicate policies x 3 dict classes")
     r = ctx.rng("parse")
-    cases += [gen_parse_case(r) for _ in range(ctx.n(4000, 40000))]
+    cases += [gen_parse_case(r) for _ in range(ctx.n(20000, 100000))]
     for c in cases:
         ks = [k for k, _ in c["attrs"]]
         ctx.count("parse:dup" if len(set(ks)) < len(ks) else "parse:nodup")
@@ -952,8 +987,27 @@ def replay(path):
     c = v["case"]
     if c.get("kind") in ("split", "multi", "dict", "parse", "tag"):
         c = {k: x for k, x in c.items() if k != "line"}
-        obs, extra = execute(c)
+        def human(cc):
+            if cc["kind"] == "dict":
+                return "; ".join(f"d[{mk_key(kd)!r}] = {vd!r}"[:80] for kd, vd in cc["sets"]) + f"   (d = {cc['cls']} attribute dict)"
+            if cc["kind"] == "tag":
+                how = "Tag(name=%r, is_xml=%r, attrs=...)" % (cc["name"], cc["isxml"]) if cc["cfg"] is None else "soup.new_tag(%r, attrs=...) with builder options %r" % (cc["name"], cc["cfg"])
+                if cc.get("via") == "copy":
+                    how = "copy.copy of a tag whose attrs are"
+                pre = None if cc["attrs"] is None else {k: vd for k, vd in cc["attrs"]}
+                return f"{how} attrs={pre!r}"[:300] + "; then " + "; ".join(f"tag[{mk_key(kd)!r}] = {vd!r}"[:80] for kd, vd in cc["sets"])
+            if cc["kind"] == "parse":
+                return f"BeautifulSoup({cc['markup']!r}, 'html.parser', options={cc['cfg']!r})"
+            return json.dumps(cc)
+        print("input:", human(c))
+        try:
+            obs, extra = execute(c)
+        except Exception as ex:
+            obs, extra = f"raised {type(ex).__name__}: {str(ex)[:80]}", []
         c.pop("_seen", None)
+        if "_human" in c:
+            n, d = c.pop("_human")
+            print(f"implementation (Python): attributes held in {n}: {safe_repr(d)}")
         want = oracle(c)
         print("implementation:", obs)
         print("property demands:", want)
